@@ -26,7 +26,12 @@ Definition eother : str := slit "other".
 Definition enotfound : str := slit "notfound".
 
 (* ---------------------------------------------------------------- N-indexed list operations *)
+(* [lenN] is the specification of the length; [flen] computes the same number tail-recursively
+   (the extracted model is run on files of several MiB) - flen_eq in Proofs/LEProofs.v. *)
 Definition lenN {A} (l : list A) : N := N.of_nat (List.length l).
+Fixpoint len_acc {A} (l : list A) (acc : N) : N :=
+  match l with [] => acc | _ :: r => len_acc r (N.succ acc) end.
+Definition flen {A} (l : list A) : N := len_acc l 0.
 Definition takeN {A} (n : N) (l : list A) : list A := firstn (N.to_nat n) l.
 Definition dropN {A} (n : N) (l : list A) : list A := skipn (N.to_nat n) l.
 Definition zerosN (n : N) : list byte := repeat zero (N.to_nat n).
@@ -40,7 +45,7 @@ Definition insN (bs : list byte) (off : N) (vs : list byte) : list byte :=
   takeN off bs ++ vs ++ dropN off bs.
 (* Vec::resize(n, 0) *)
 Definition resizeN (bs : list byte) (n : N) : list byte :=
-  if n <=? lenN bs then takeN n bs else bs ++ zerosN (n - lenN bs).
+  if n <=? flen bs then takeN n bs else bs ++ zerosN (n - flen bs).
 
 (* ---------------------------------------------------------------- little-endian codec *)
 Definition b2n (b : byte) : N := N_of_ascii b.
@@ -90,18 +95,18 @@ Definition align (fx : bool) (m : mode) (M x mult : N) : outcome N :=
 Definition read_field (fx : bool) (m : mode) (sz : nat) (bs : list byte) (off : N) : outcome N :=
   if two64 <=? off + N.of_nat sz then
     (if fx then Err eother else match m with Debug => Panic (slit "add") | Release => Err eother end)
-  else if off + N.of_nat sz <=? lenN bs then Ok (decode_le (subN bs off (N.of_nat sz)))
+  else if off + N.of_nat sz <=? flen bs then Ok (decode_le (subN bs off (N.of_nat sz)))
   else Err eother.
 
 Definition write_field (fx : bool) (m : mode) (sz : nat) (bs : list byte) (off v : N) : outcome (list byte) :=
   if two64 <=? off + N.of_nat sz then
     (if fx then Err eother else match m with Debug => Panic (slit "add") | Release => Err eother end)
-  else if off + N.of_nat sz <=? lenN bs then Ok (updN bs off (encode_le sz v))
+  else if off + N.of_nat sz <=? flen bs then Ok (updN bs off (encode_le sz v))
   else Err eother.
 
 (* read_string(bytes, offset, max): NUL-terminated, at most [fuel] bytes; running off the end is an error.
    (No panic is possible: the first `get(offset)` fails unless offset < len <= isize::MAX.) *)
-Fixpoint rs (bs : list byte) (fuel : nat) : outcome (list byte) :=
+Fixpoint rs (bs : list byte) (fuel : nat) {struct fuel} : outcome (list byte) :=
   match fuel with
   | O => Ok []
   | S f => match bs with
@@ -111,21 +116,21 @@ Fixpoint rs (bs : list byte) (fuel : nat) : outcome (list byte) :=
            end
   end.
 Definition read_string (bs : list byte) (off : N) (fuel : nat) : outcome (list byte) :=
-  if off <? lenN bs then rs (dropN off bs) fuel else Err eother.
+  if off <? flen bs then rs (dropN off bs) fuel else Err eother.
 
 (* Vec::split_off(at) then truncate(size): panics when at > len *)
 Definition split_trunc (fx : bool) (bs : list byte) (at_ size : N) : outcome (list byte) :=
-  if at_ <=? lenN bs then
+  if at_ <=? flen bs then
     let rest := dropN at_ bs in
-    Ok (if size <? lenN rest then takeN size rest else rest)
+    Ok (if size <? flen rest then takeN size rest else rest)
   else if fx then Err eother else Panic (slit "split").
 
 (* Vec::splice(pos..pos, ins): panics when pos > len *)
 Definition splice_ins (fx : bool) (bs : list byte) (pos : N) (ins : list byte) : outcome (list byte) :=
-  if pos <=? lenN bs then Ok (insN bs pos ins)
+  if pos <=? flen bs then Ok (insN bs pos ins)
   else if fx then Err eother else Panic (slit "index").
 
 (* bytes[off..off+|vs|].copy_from_slice(vs): panics when the range is outside *)
 Definition overwrite (fx : bool) (bs : list byte) (off : N) (vs : list byte) : outcome (list byte) :=
-  if off + lenN vs <=? lenN bs then Ok (updN bs off vs)
+  if off + flen vs <=? flen bs then Ok (updN bs off vs)
   else if fx then Err eother else Panic (slit "index").
